@@ -220,4 +220,6 @@ def check(ctx, R):
     from . import c13 as _c13, c16 as _c16
     R.run("C07.h", lambda R, c: _c13.rule_c(R, c, "C07.h"), ctx)
     R.run("C07.i", lambda R, c: _c16.rule_e(R, c, "C07.i"), ctx)
+    from . import shared as _shx
+    R.run("C07.j", lambda R, c: _shx.export_extent(R, c, "C07.j"), ctx)
     return {}
